@@ -295,6 +295,20 @@ func ruleSpecialSigns(w *World, r *RuleResult) {
 			if di < 0 || di >= len(f.Params) || !isDecimalPtr(f.Params[di].Type()) {
 				continue
 			}
+			// a helper is looked at only if it deals with signs itself (stores the destination's Negative
+			// field): one that is reached for operands of a known sign only (x > 0 in the caller) copies the
+			// unsigned constants rightly
+			if f != top {
+				storesSign := false
+				for _, st := range storesIn(f) {
+					if fa, ok := st.Addr.(*ssa.FieldAddr); ok && fa.X == ssa.Value(f.Params[di]) && w.exprOf(f, st.Addr).Name == "Negative" {
+						storesSign = true
+					}
+				}
+				if !storesSign {
+					continue
+				}
+			}
 			var sites []*ssa.Call
 			sites = append(sites, w.sharedSetSites(f, "decimalInfinity")...)
 			sites = append(sites, w.sharedSetSites(f, "decimalZero")...)
